@@ -52,6 +52,7 @@ type Runner struct {
 	swPark       *Event
 	g2retry      *Event
 	g1queued     bool
+	g2queued     bool // ProcessBlockRelease woke up while ProcessBlockPut holds storeLock
 	drained      bool // oracle-only: the store left the expected protocol and was driven to the end of a shutdown
 	// Hold: keep the finding of this case back (Held) instead of reporting it at once
 	Hold bool
